@@ -2,6 +2,7 @@ import DaeVerif.C13.Tracker
 import DaeVerif.C13.Drain
 import DaeVerif.C13.Keys
 import DaeVerif.C13.TQ
+import DaeVerif.C13.EP
 /-!
 # C13 — executable models (core Lean only)
 
